@@ -218,6 +218,59 @@ func FamilyInstances(r *Runner) {
 		})
 	}
 
+	// An instance starting up (LoadLog paused after k operations) while the
+	// running instance sequences and publishes a round; then both go on.
+	for _, base := range []int{0, 254} {
+		var nl int
+		r.Scenario(fmt.Sprintf("instances/load-race/b%d/dry", base), true, func(w *World) error {
+			if _, err := Setup(w, base, 0); err != nil {
+				return err
+			}
+			b := w.NewInc("B")
+			t := w.Go("loadB", func() error { return b.Load(map[string]bool{"untampered": true, "clockOk": true, "faultFree": true}) })
+			ops, _ := w.DryRun(b, t)
+			nl = len(ops)
+			return nil
+		})
+		for k := 0; k <= nl; k++ {
+			for _, na := range []int{0, 2} {
+				r.Scenario(fmt.Sprintf("instances/load-race/b%d/at%d/a%d", base, k, na), false, func(w *World) error {
+					a, err := Setup(w, base, 0)
+					if err != nil {
+						return err
+					}
+					b := w.NewInc("B")
+					tl := w.Go("loadB", func() error { return b.Load(map[string]bool{"untampered": true, "clockOk": true, "faultFree": true}) })
+					w.RunSteps(b, tl, k)
+					sa := submitAll(w, a, newEntries(w, "a", na))
+					ta := w.Go("roundA", a.Round)
+					if !w.FinishTask(a, ta) {
+						return fmt.Errorf("A's round stuck")
+					}
+					w.Check("allDone", sa...)
+					if !w.FinishTask(b, tl) {
+						return fmt.Errorf("B's load stuck")
+					}
+					w.Quiesce()
+					if tl.Err != nil {
+						return nil
+					}
+					sb := submitAll(w, b, newEntries(w, "b", 1))
+					tb := w.Go("roundB", b.Round)
+					w.FinishTask(b, tb)
+					sa2 := submitAll(w, a, newEntries(w, "a2", 1))
+					ta2 := w.Go("roundA2", a.Round)
+					w.FinishTask(a, ta2)
+					w.Check("allDone", append(sb, sa2...)...)
+					w.Crash(a)
+					w.Crash(b)
+					_, err = Recover(w, "A", nil, "lr")
+					return err
+				})
+			}
+		}
+	}
+
 	// CreateLog over an existing log, and two concurrent CreateLogs
 	r.Scenario("instances/create-over-existing", false, func(w *World) error {
 		if _, err := Setup(w, 0, 0); err != nil {
@@ -232,6 +285,42 @@ func FamilyInstances(r *Runner) {
 		w.Quiesce()
 		return nil
 	})
+	for k := 0; k <= 4; k++ {
+		// the second creator finishes, and the log is even started and used,
+		// before the first creator (paused after k operations) goes on
+		r.Scenario(fmt.Sprintf("instances/create-race-used-%d", k), false, func(w *World) error {
+			w.Gate(true)
+			a, b := w.NewInc("A"), w.NewInc("B")
+			ta := w.Go("createA", a.Create)
+			w.RunSteps(a, ta, k)
+			tb := w.Go("createB", b.Create)
+			w.FinishTask(b, tb)
+			w.Gate(false)
+			var subs []*Sub
+			if tb.Err == nil {
+				b2 := w.NewInc("B")
+				if err := b2.Load(map[string]bool{"untampered": true, "clockOk": true, "faultFree": true}); err == nil {
+					subs = append(subs, b2.Submit(w.SynthEntry("u1", false, "X"), false), b2.Submit(w.SynthEntry("u2", true), false))
+					w.Settle()
+					b2.Round()
+					w.Settle()
+				}
+			}
+			w.Gate(true)
+			w.FinishTask(a, ta)
+			w.Quiesce()
+			w.Gate(false)
+			c := w.NewInc("C")
+			if err := c.Load(map[string]bool{"untampered": true, "clockOk": true, "faultFree": true}); err != nil {
+				return nil
+			}
+			subs = append(subs, c.Submit(w.SynthEntry("u3", false), false))
+			w.Settle()
+			c.Round()
+			w.Check("allDone", subs...)
+			return nil
+		})
+	}
 	for k := 0; k <= 4; k++ {
 		r.Scenario(fmt.Sprintf("instances/create-race-%d", k), false, func(w *World) error {
 			w.Gate(true)
